@@ -337,16 +337,32 @@ def symlist_base_elem(I, L, zi):
     ck = (L.name, zi.get_id())
     if ck in cache:
         return cache[ck][1]
-    fields = {}
-    for f, (fn, kind) in L.funcs.items():
-        t = fn(zi)
-        fields[f] = SStr([Sq(t)]) if kind == 'str' else (SInt(t) if kind == 'int' else SBool(t))
+    e = _build_elem(L, lambda key: L.funcs[key][0](zi))
+    for key, lo, hi in L.bounds:
+        t = L.funcs[key][0](zi)
+        if lo is not None:
+            I.st.assume(t >= lo)
+        if hi is not None:
+            I.st.assume(t <= hi)
     for hook in I.config.get('symlist_hooks', []):
         hook(I, L, zi)
-    e = SObj(L.cls, fields, tag='symlist-element')
     cache[ck] = (zi, e)
     I.st.undo_log.append(lambda: cache.pop(ck, None))
     return e
+
+
+def _build_elem(L, leaf):
+    """element object (nested as the list's shape says); leaf(key) -> z3 expression of the scalar leaf"""
+    def build(sh, top=False):
+        if sh[0] == 'obj':
+            return SObj(sh[1], {f: build(x) for f, x in sh[2].items()}, tag='symlist-element' if top else 'symlist-element-part')
+        if sh[0] == 'tuple':
+            return tuple(build(x) for x in sh[1])
+        if sh[0] == 'const':
+            return sh[1]
+        t = leaf(sh[1])
+        return SStr([Sq(t)]) if sh[2] == 'str' else (SInt(t) if sh[2] == 'int' else SBool(t))
+    return build(L.shape, True)
 
 
 def _alive(L):
@@ -370,11 +386,7 @@ def symlist_elem(I, L, zi):
 def symlist_generic_elem(I, L, zi, v=None):
     """element at an index that stands for every index (bound variable / skolem constant): a read-only view whose
     fields are If-chains over the writes; never forks"""
-    fields = {}
-    for f, (fn, kind) in L.funcs.items():
-        t = L.field(f, zi, v)
-        fields[f] = SStr([Sq(t)]) if kind == 'str' else (SInt(t) if kind == 'int' else SBool(t))
-    return SObj(L.cls, fields, tag='symlist-element')
+    return _build_elem(L, lambda key: L.field(key, zi, v))
 
 
 def symlist_index(I, L, idx, node, exc=IndexError):
@@ -404,10 +416,19 @@ def symlist_index(I, L, idx, node, exc=IndexError):
 
 def symlist_write(I, L, pos, obj, node=None):
     """one mutation = one new version: (pos == current length: append; else store at pos)"""
+    if L.shape[0] == 'leaf':
+        if not (is_strlike(obj) if L.shape[2] == 'str' else is_intlike(obj)):
+            raise Unsupported("store of a value of another kind into a list of symbolic length")
+        is_append = z3.is_expr(pos) and pos.eq(L.n) or pos is L.n
+        L.over.append((pos, obj))
+        L.ns.append(z3.simplify(L.n + 1) if is_append else L.n)
+        return
     if not isinstance(obj, SObj) or not issubclass(obj.cls, L.cls):
         raise Unsupported("store of a value of another kind into a list of symbolic length")
     for f in L.funcs:
-        if f not in obj.fields:
+        try:
+            _at = __import__('pyvc.values', fromlist=['_at_path'])._at_path(obj, f)
+        except (KeyError, IndexError, ValueError):
             raise Unsupported(f"object stored into a list of symbolic length lacks field {f}")
     I.st.notes.setdefault('frozen', {})[id(obj)] = obj      # from now on read-only (its fields are part of the list's value)
     is_append = z3.is_expr(pos) and pos.eq(L.n) or pos is L.n
@@ -429,6 +450,8 @@ def b_zip(I, args, kwargs, node):
 
 
 def b_reversed(I, args, kwargs, node):
+    if isinstance(args[0], SymList):
+        return RevSym(args[0])
     return list(reversed(I.iterate(args[0], node)))
 
 
@@ -717,6 +740,17 @@ _UPPER = z3.Function('str_upper', z3.StringSort(), z3.StringSort())
 
 def str_method(I, s, name, args, kwargs, node):
     conc = isinstance(s, str) and all(is_concrete(a) for a in args)
+    if name == 'join' and isinstance(args[0], SymList) and args[0].shape[0] == 'leaf' and args[0].shape[2] == 'str':
+        # sep.join(xs) = (x0 + sep + x1 + sep ...) without the last separator: the prefix fold of (x + sep), cut
+        from . import folds
+        if not isinstance(s, str) or s == "":
+            raise Unsupported("join over a list of strings of symbolic length: separator must be a non-empty constant")
+        L = args[0]
+        view = ListView(L)
+        fold = folds.sep_fold(I, s)
+        whole = str_z3(fold.whole(I, view))
+        cut = z3.SubString(whole, 0, z3.Length(whole) - len(s))
+        return SStr([Sq(z3.If(view.n > 0, cut, z3.StringVal("")))])
     if name == 'join' and isinstance(args[0], MapSym):
         if not (isinstance(s, str) and s == ""):
             raise Unsupported("join with a non-empty separator over a list of symbolic length")
